@@ -20,6 +20,7 @@ def check(ctx):
     H = ['#include "c12.c"', 'const uint8_t KPK_D[2][48][4096] = ', '#include "kpk_d.init"', ';']; names = []
     for stm in (0, 1):
         for wp in range(8, 56):
+            if ctx.tier == 'quick' and (wp & 7) > 3 and not ((wp & 7) in (4, 7) and (wp >> 3) in (1, 6)): continue
             f = 'h_kpk_%s_%s%d' % ('wb'[stm], 'abcdefgh'[wp & 7], (wp >> 3) + 1)
             H.append('void %s(void) { kpk_case(%d, %d); }' % (f, stm, wp))
             names.append((f, {'pawn': 'abcdefgh'[wp & 7] + str((wp >> 3) + 1), 'side_to_move': 'wb'[stm], 'kings': 'symbolic (all legal pairs)'}))
@@ -31,7 +32,7 @@ def check(ctx):
         if ctx.only and not re.search(ctx.only, f): continue
         qs.append(Query(f, gb, f, us, timeout=600, sample=smp, max_unwind={'*': 12}))
         ws.append(Query('w_' + f, gbw, f, us, timeout=600, sample=smp, meta={'of': f}, expect='witness', max_unwind={'*': 12}))
-    res = ctx.run_queries(qs + ws, par=8, label='c12')
+    res = ctx.run_queries(qs + ws, par=16, label='c12')
     wit = [r for r in res if r.q.expect == 'witness']; res = [r for r in res if r.q.expect != 'witness']
     def replay(ctx, r):
         ce = r.ce()
@@ -47,5 +48,5 @@ def check(ctx):
                      'the depth witness D comes from an independent retrograde pass (native/kpk_solve.cpp); it is only a witness: conditions (1)-(4) are checked by the solver for every position',
                      'mirror symmetry of chess: Black owning the pawn is the colour-mirrored position (the evaluator for Black is checked against the same set, condition (5))',
                      'rules of KPK written in rt/kpk_rules.h (king moves, pawn single/double push, capture of the pawn, check, stalemate)'],
-        bounds={'positions': 'ALL legal KPK positions: 48 pawn squares x 2 sides to move (one query each) x all king placements (symbolic); exhaustive, no bound',
+        bounds={'positions': ('thorough tier: ALL legal KPK positions: 48 pawn squares x 2 sides to move (one query each) x all king placements (symbolic); exhaustive, no bound. ' 'quick tier: pawn files a-d (all ranks) plus e2,e7,h2,h7; the other e-h squares reach the same table entries through the horizontal flip of bitbase::normalize') + ' [this run: %d pawn-square/side queries]' % len(names),
                 'loops': 'fixed trip counts (8 king directions, 7 ray steps)'})
